@@ -682,6 +682,10 @@ func runStructChecks(w *engine.World, checks []StructCheck) []structResult {
 			out = append(out, sameArg(w, c)...)
 			continue
 		}
+		if c.Kind == "no-copy" {
+			out = append(out, noCopy(w, c))
+			continue
+		}
 		pkg := w.PPkgs[c.Pkg]
 		if pkg == nil {
 			out = append(out, structResult{fmt.Sprintf("struct/%s.%s/%s", c.Pkg, c.Type, c.Kind), false, "package not loaded"})
@@ -983,4 +987,61 @@ func sameArg(w *engine.World, c StructCheck) []structResult {
 		}
 	}
 	return out
+}
+
+// noCopy: values of the named struct type are never copied (no instruction of the package yields a
+// value of that type: no load of a whole struct, no by-value parameter, result or field). Objects that
+// carry a finalizer or are referenced by address from machine code must keep their identity.
+func noCopy(w *engine.World, c StructCheck) structResult {
+	short := c.Pkg[strings.LastIndex(c.Pkg, "/")+1:] + "." + c.Type
+	name := "struct/" + short + "/no-copy"
+	sp := w.Pkgs[c.Pkg]
+	if sp == nil {
+		return structResult{name, false, "package not loaded"}
+	}
+	tn := sp.Type(c.Type)
+	if tn == nil {
+		return structResult{name, false, "type not found"}
+	}
+	isT := func(t types.Type) bool {
+		nt, ok := t.(*types.Named)
+		return ok && nt.Obj() == tn.Object()
+	}
+	// no struct of the package embeds it by value
+	for _, m := range sp.Members {
+		if t, ok := m.(*ssa.Type); ok {
+			if st, ok := t.Type().Underlying().(*types.Struct); ok {
+				for i := 0; i < st.NumFields(); i++ {
+					if isT(st.Field(i).Type()) {
+						return structResult{name, false, fmt.Sprintf("%s.%s holds a %s by value", t.Name(), st.Field(i).Name(), c.Type)}
+					}
+				}
+			}
+		}
+	}
+	n := 0
+	for fn := range ssautil.AllFunctions(w.Prog) {
+		if fn.Pkg != sp && !(fn.Parent() != nil && fn.Parent().Pkg == sp) {
+			continue
+		}
+		if pos := w.Fset.Position(fn.Pos()); strings.Contains(pos.Filename, "verif_contracts") || strings.Contains(fn.Name(), "verif_") {
+			continue
+		}
+		n++
+		for _, p := range fn.Params {
+			if isT(p.Type()) {
+				return structResult{name, false, engine.ShortFn(fn) + " takes a " + c.Type + " by value"}
+			}
+		}
+		for _, b := range fn.Blocks {
+			for _, in := range b.Instrs {
+				if v, ok := in.(ssa.Value); ok && isT(v.Type()) {
+					if _, isAlloc := in.(*ssa.Alloc); !isAlloc {
+						return structResult{name, false, fmt.Sprintf("%s copies a %s value (%s)", engine.ShortFn(fn), c.Type, w.Fset.Position(in.Pos()))}
+					}
+				}
+			}
+		}
+	}
+	return structResult{name, n > 0, "no functions scanned"}
 }
